@@ -2449,6 +2449,14 @@ def _map(ex, f, seq):
     return Tup([ex.call(f, [i], {}) for i in seq.items], 'list')
 
 
+def _sorted(ex, seq, key=None, reverse=False):
+    if not isinstance(seq, Tup):
+        raise Unsupported('sorted(%r)' % (seq,))
+    out = Tup(list(seq.items), 'list')
+    _list_sort(ex, out, key=key, reverse=reverse)
+    return out
+
+
 def _reversed(ex, seq):
     if not isinstance(seq, Tup):
         raise Unsupported('reversed(%r)' % (seq,))
@@ -2628,7 +2636,7 @@ def _dict_ctor(ex, d=None, **kw):
 
 BUILTINS = {
     'len': FnV(_len, 'len'), 'min': FnV(_minmax('min'), 'min'), 'max': FnV(_minmax('max'), 'max'),
-    'map': FnV(lambda ex, f, seq: _map(ex, f, seq), 'map'), 'reversed': FnV(lambda ex, seq: _reversed(ex, seq), 'reversed'),
+    'map': FnV(lambda ex, f, seq: _map(ex, f, seq), 'map'), 'sorted': FnV(lambda ex, seq, key=None, reverse=False: _sorted(ex, seq, key, reverse), 'sorted'), 'reversed': FnV(lambda ex, seq: _reversed(ex, seq), 'reversed'),
     'abs': FnV(_abs, 'abs'), 'int': FnV(_int, 'int'), 'float': FnV(_float, 'float'), 'bool': FnV(_bool, 'bool'), 'ord': FnV(_ord, 'ord'),
     'isinstance': FnV(_isinstance, 'isinstance'), 'tuple': FnV(_tuple, 'tuple'), 'list': FnV(_list, 'list'),
     'bytes': FnV(_bytes, 'bytes'), 'hasattr': FnV(_hasattr, 'hasattr'), 'enumerate': FnV(_enumerate, 'enumerate'),
@@ -2684,15 +2692,26 @@ def _list_sort(ex, lst, key=None, reverse=False):
     if n > 4:
         raise Unsupported('sort of more than 4 items')
     keys = [ex.call(key, [it], {}) if key is not None else it for it in items]
-    if not all(isinstance(k, SeqV) for k in keys):
-        raise Unsupported('sort keys that are not byte strings')
-    kz = [k.z for k in keys]
-    for a in kz:
-        for b in kz:
-            ex.assume(Or(SEQ_LE(a, b), SEQ_LE(b, a)))
-            ex.assume(z3.Implies(And(SEQ_LE(a, b), SEQ_LE(b, a)), a == b))
-            for c in kz:
-                ex.assume(z3.Implies(And(SEQ_LE(a, b), SEQ_LE(b, c)), SEQ_LE(a, c)))
+    if all(isinstance(k, SeqV) for k in keys):
+        kz = [k.z for k in keys]
+        for a in kz:
+            for b in kz:
+                ex.assume(Or(SEQ_LE(a, b), SEQ_LE(b, a)))
+                ex.assume(z3.Implies(And(SEQ_LE(a, b), SEQ_LE(b, a)), a == b))
+                for c in kz:
+                    ex.assume(z3.Implies(And(SEQ_LE(a, b), SEQ_LE(b, c)), SEQ_LE(a, c)))
+        le_of = lambda x, y: SEQ_LE(x, y)
+    elif all(isinstance(k, Tup) and all(is_intlike(i) for i in k.items) for k in keys) and len({len(k.items) for k in keys}) <= 1:
+        # tuples of ints of one length: python's lexicographic order, stated directly
+        kz = [[toint(i) for i in k.items] for k in keys]
+
+        def le_of(x, y):
+            out = BoolVal(True)
+            for xi, yi in reversed(list(zip(x, y))):
+                out = Or(xi < yi, And(xi == yi, out))
+            return out
+    else:
+        raise Unsupported('sort keys that are neither byte strings nor equal-length tuples of ints')
     import itertools
     rev = concrete(reverse) if not isinstance(reverse, bool) else reverse
     if rev is None:
@@ -2700,8 +2719,8 @@ def _list_sort(ex, lst, key=None, reverse=False):
     for perm in itertools.permutations(range(n)):
         conds = []
         for i, j in zip(perm, perm[1:]):
-            le = SEQ_LE(kz[j], kz[i]) if rev else SEQ_LE(kz[i], kz[j])
-            strictly = Not(SEQ_LE(kz[i], kz[j])) if rev else Not(SEQ_LE(kz[j], kz[i]))
+            le = le_of(kz[j], kz[i]) if rev else le_of(kz[i], kz[j])
+            strictly = Not(le_of(kz[i], kz[j])) if rev else Not(le_of(kz[j], kz[i]))
             # stable: equal keys keep their original order
             conds.append(And(le, Or(strictly, BoolVal(i < j))))
         if ex.choose(And(*conds) if conds else BoolVal(True), 'sorted-as-%s' % (perm,)):
